@@ -375,3 +375,20 @@ Definition final (s : state) : bool :=
   | GDone, XDone, RDone, CDone _ => forallb w_exited (ws s)
   | _, _, _, _ => false
   end.
+
+(* ---- lib/errorx/atomicError.go (anchor of retErr): an atomic.Value holding an error ----
+   Errors are codes; `ae_type` is the dynamic (concrete) type of the error behind a code: code 1 is a nil *T (a TYPED
+   nil: a non-nil error interface), 3 a non-nil *T, 2 a nil slice type implementing error, every other code a value
+   type.  Set :11-15 ignores only the untyped nil; atomic.Value.Store panics when the concrete type differs from the
+   one stored first ("store of inconsistently typed value") - Panic, not a silent default. Load :18-24. *)
+Inductive aeop := AESet (e : option nat) | AELoad.
+Definition ae_type (code : nat) : nat := match code with 1 | 3 => 1 | 2 => 2 | _ => 3 end.
+Definition ae_set (st : option nat) (e : option nat) : result (option nat) :=
+  match e with
+  | None => Ok st                                   (* if err != nil *)
+  | Some c => match st with
+              | Some c0 => if Nat.eqb (ae_type c0) (ae_type c) then Ok (Some c) else Panic
+              | None => Ok (Some c)
+              end
+  end.
+Definition ae_load (st : option nat) : option nat := st.
